@@ -54,6 +54,7 @@ REQUIRED = [
     "tls1.3",
     "bytes_checked",
     "highlevel_server_sessions",
+    "real_socket_backlog_sessions",
 ]
 WATCHDOG = {"quick": 900, "thorough": 7200}
 SIZES = [1, 2, 100, 1000, 16384, 16385, 50000]
@@ -419,6 +420,79 @@ def highlevel_server_session(ctx, rng: random.Random, version: str, std: bool) -
     return None
 
 
+def real_socket_backlog_session(ctx, rng: random.Random, version: str) -> str | None:
+    """AsyncTLSStreamTransport over the real asyncio socket adapter (read flow control included): the peer writes 0.4-1 MiB while the
+    library side is busy elsewhere, so the adapter's protocol fills its buffer and pauses reading; the library side then reads with
+    buffers as large as that backlog. Every byte must arrive; nothing may fail or stall."""
+    import asyncio
+
+    size = rng.choice([400_000, 1_000_000])
+    readbuf = rng.choice([262_144, 262_144, 65_536, 1_000_000])
+    data = bytes((i * 13 + 5) % 251 for i in range(4096)) * (size // 4096 + 1)
+    data = data[:size]
+    out: dict = {"got": bytearray()}
+
+    async def main(loop):
+        backend = AsyncIOBackend()
+        c, s = netutil.tcp_pair()
+        s.setblocking(False)
+
+        class _SockT:
+            async def send_all(self_inner, d):
+                await asyncio.get_running_loop().sock_sendall(s, d)
+
+            async def recv_into(self_inner, buf):
+                try:
+                    return await asyncio.get_running_loop().sock_recv_into(s, buf)
+                except OSError:
+                    return 0
+
+        peer = tlspeer.AsyncPeer(_SockT(), tlspeer.server_context(version), server_side=True)
+        hs = asyncio.ensure_future(peer.handshake())
+        tr = await backend.wrap_stream_socket(c)
+        t = await AsyncTLSStreamTransport.wrap(tr, tlspeer.client_context(version), server_hostname="localhost", handshake_timeout=1e6, shutdown_timeout=1)
+        await hs
+        await peer.drain()
+        wt = asyncio.ensure_future(peer.write(data))
+        loop.io_expected = lambda: not wt.done() and not out.get("reading")  # the peer is pushing bytes into the kernel / the adapter
+        for _ in range(40):
+            await asyncio.sleep(0.0125)  # busy elsewhere for half a (virtual) second, in small steps so that the backlog can build up
+        out["reading"] = True
+        loop.io_expected = lambda: len(out["got"]) < size
+        try:
+            while len(out["got"]) < size:
+                buf = bytearray(readbuf)
+                n = await asyncio.wait_for(t.recv_into(buf), 120)
+                if not n:
+                    break
+                out["got"] += buf[:n]
+        except BaseException as exc:  # noqa: BLE001
+            if isinstance(exc, (asyncio.CancelledError, vloop.Quiescent)):
+                raise
+            out["error"] = f"{type(exc).__name__}: {exc}"
+        loop.io_expected = None
+        wt.cancel()
+        await asyncio.gather(wt, return_exceptions=True)
+        try:
+            await tr.aclose()
+        except Exception:  # noqa: BLE001
+            pass
+        s.close()
+
+    try:
+        vloop.run(main)
+    except vloop.Quiescent as exc:
+        return f"deadlock: {exc} after {len(out['got'])} of {size} bytes"
+    except Exception as exc:  # noqa: BLE001
+        return f"unexpected {type(exc).__name__}: {exc}"
+    ctx.count("real_socket_backlog_sessions")
+    if out.get("error"):
+        return f"real socket adapter, {size} bytes written while the reader was busy, then read with {readbuf}-byte buffers: recv_into failed with {out['error']} after {len(out['got'])} bytes"
+    if bytes(out["got"]) != data:
+        return f"real socket adapter backlog: received {len(out['got'])} of {size} bytes / content differs"
+    return None
+
+
 def gen_params(rng: random.Random, heavy: bool) -> dict:
     def sizes():
         n = rng.randint(1, 4)
@@ -500,6 +574,11 @@ def run_shard(params: dict, ctx) -> None:
         if why:
             cat = "deadlock" if "deadlock" in why or "hang" in why else "plaintext-leak" if "unencrypted" in why else "byte-stream"
             ctx.violation(f"{cat}:{kind}", f"[{kind} TLS{version} lib_server={lib_server}] {why}", {"kind": kind, "version": version, "lib_server": lib_server, "params": p, "seed": params["seed"], "index": i})
+        if i % 10 == 5:
+            why3 = real_socket_backlog_session(ctx, rng, version)
+            ctx.case(True, "real-socket-backlog", version, params["seed"], i)
+            if why3:
+                ctx.violation("byte-stream:real-socket-backlog" if "deadlock" not in why3 else "deadlock:real-socket-backlog", f"[TLS{version} over the asyncio socket adapter] {why3}", {"kind": "real-socket-backlog", "version": version, "lib_server": False, "params": {}, "seed": params["seed"], "index": i})
         if i % 10 == 0:
             std = rng.random() < 0.5
             why2 = highlevel_server_session(ctx, rng, version, std)
